@@ -59,9 +59,9 @@ pub fn fcb(s: &str, index: usize) -> usize {
     floor_char_boundary(s, index)
 }
 
-const FCB_N: usize = 6;
+const FCB_N: usize = 5;
 
-/// Exact precondition (real `from_utf8` validity), every string of at most 6 bytes — which contains
+/// Exact precondition (real `from_utf8` validity), every string of at most 5 bytes (quick tier; 8 bytes in the thorough tier) — which contains
 /// every arrangement of 1/2/3/4-byte characters around a cut — and every index.
 /// Checks: no UB at `unwrap_unchecked`, no out-of-bounds slice, and the contract.
 #[kani::proof_for_contract(fcb)]
